@@ -461,7 +461,15 @@ class SimNet:
         self.open_set.add(conn)
         sock.conn = conn
         if sock.family == _socket.AF_INET6:
-            sock.peer = (host, address[1], 0, address[3] if len(address) > 3 else 0)
+            # what getpeername() really returns (CPython >= 3.7): the inet_ntop spelling of the address - compressed, lower case,
+            # an IPv4-mapped address in dotted form, and NO %scope (the zone travels as the 4th element) - whatever spelling was dialled
+            bare, _, zone = host.partition("%")
+            try:
+                shown = _socket.inet_ntop(_socket.AF_INET6, _socket.inet_pton(_socket.AF_INET6, bare))
+            except OSError:
+                shown = bare
+            scope = address[3] if len(address) > 3 and address[3] else (int(zone) if zone.isdigit() else (2 if zone else 0))
+            sock.peer = (shown, address[1], 0, scope)
         else:
             sock.peer = (host, address[1])
         conn.server = spec.server_factory(conn)
